@@ -18,7 +18,7 @@ ASSUMPTIONS = [
 # back end (600 s+), but are the SAME bit-vector term for an SMT solver; these jobs are discharged by z3.
 SMT_OPS = {"SIntTimes", "SIntTimesPlus", "SIntMod", "SIntQuo", "SIntRem", "SIntPlusMod", "SIntMinusMod", "SIntTimesMod", "SIntHashCombine"}
 LOOP_OPS = {"SIntLength": ["--unwind", "66", "--unwinding-assertions"]}
-LINK = ["foam_c.c", "util.c:-Dbug=util_c_bug", "stdc.c:-D_do_assert=stdc_c_do_assert"]
+LINK = ["foam_c.c", "foam_i.c", "util.c:-Dbug=util_c_bug", "stdc.c:-D_do_assert=stdc_c_do_assert"]
 NOBODY_OK = []
 SKIP = {"SIntGcd"}
 # float agreement over the FULL operand domain is not decided for these (SAT and z3 both > 900 s): multiplier /
@@ -63,17 +63,18 @@ def jobs(tier):
                        "functions": ["genc:ccBValInfoTable[%s] (extracted)" % n], "inputs": list("abcd"[:b["argc"]]),
                        "native": True, "cls": "P", "timeout": 300, "link": LINK, "strict_nobody": True, "nobody_ok": NOBODY_OK,
                        "cbmc": extra})
-    for n in gen.CANARY:
+    SPLICE = {"fint.c": {"_rename_def": {"fintEval": "fintEval__real"}}}
+    NOCHK = ["--no-standard-checks", "--no-malloc-may-fail"]
+    for n in list(gen.CANARY) + list(gen.CANARY_RT):
         b = [x for x in bs if x["name"] == n][0]
         ins = list("abcd"[:b["argc"]])
+        common = {"kind": "canary", "inputs": ins, "cls": "P", "timeout": 300, "link": LINK}
         if n != "SIntBit":   # the folder leaves SIntBit alone ("fill in later"), so there is nothing to refute there
-          js.append({"name": "canary.fold." + n, "kind": "canary", "src": os.path.join(gd, "gen_fold_canary.c"), "entry": "h_fold_" + n,
-                   "functions": ["cfoldBCall"], "inputs": ins, "cls": "P", "checks": ["--no-standard-checks", "--no-malloc-may-fail"],
-                   "cbmc": ["--object-bits", "14"], "timeout": 300, "link": LINK})
-        js.append({"name": "canary.interp." + n, "kind": "canary", "src": os.path.join(gd, "gen_fint_canary.c"), "entry": "h_fint_" + n,
-                   "functions": ["fintEvalBCall"], "splice": {"fint.c": {"_rename_def": {"fintEval": "fintEval__real"}}},
-                   "inputs": ins, "cls": "P", "checks": ["--no-standard-checks", "--no-malloc-may-fail"],
-                   "cbmc": ["--object-bits", "14"], "timeout": 300, "link": LINK})
-        js.append({"name": "canary.runtime." + n, "kind": "canary", "src": os.path.join(gd, "gen_rt_canary.c"), "entry": "h_rt_" + n,
-                   "functions": [], "inputs": ins, "cls": "P", "timeout": 300, "link": LINK})
+            js.append(dict(common, name="canary.fold." + n, src=os.path.join(gd, "gen_fold_canary.c"), entry="h_fold_" + n,
+                           functions=["cfoldBCall"], checks=NOCHK, cbmc=["--object-bits", "14"]))
+        js.append(dict(common, name="canary.interp." + n, src=os.path.join(gd, "gen_fint_canary.c"), entry="h_fint_" + n,
+                       functions=["fintEvalBCall"], splice=SPLICE, checks=NOCHK, cbmc=["--object-bits", "14"]))
+        if n in gen.CANARY:
+            js.append(dict(common, name="canary.runtime." + n, src=os.path.join(gd, "gen_rt_canary.c"), entry="h_rt_" + n,
+                           functions=[]))
     return js
